@@ -48,6 +48,10 @@ func main() {
 		os.Exit(runParserFuzz(os.Args[2:]))
 	case "parser-fuzz-child":
 		os.Exit(runParserFuzzChild(os.Args[2:]))
+	case "fault-bs-enum":
+		os.Exit(runFaultBsEnum(os.Args[2:]))
+	case "fault-bs-child":
+		os.Exit(runFaultBsChild(os.Args[2:]))
 	case "hashfuzz":
 		os.Exit(runHashFuzz(os.Args[2:]))
 	case "reader-replay":
